@@ -1,5 +1,350 @@
 package main
 
-import "verifharness/hlib"
+// Mode contracts: EVERY non-view method of the packet, endpoint and execute ABIs x caller kinds, on the
+// real byte code of the repo.  Each attempt runs on a discarded branch of the chain state.
+//
+// caller kinds: 0 externally owned account (signed Ethereum tx), 1 deployed contract (hand-assembled
+// forwarding proxy), 2 nested call through the execute contract, 3 call data carried inside a received
+// cross-chain packet (real msg-server RecvPacket), 4 xibc packet module address, 5 aggregate module address
+// (both through the keepers' CallEVMWithData), 6 packet contract as caller, 7 endpoint contract as caller,
+// 8 (endpoint.onRecvPacket only) the packet contract while it executes the module's onRecvPacket — the real
+// nested legitimate path (effect = the module's call returned result code 0).
 
-func runContracts(seed uint64, o *hlib.Out) {}
+import (
+	"fmt"
+	"math/big"
+	"reflect"
+	"sort"
+	"strings"
+
+	sdk "github.com/cosmos/cosmos-sdk/types"
+	"github.com/ethereum/go-ethereum/accounts/abi"
+	"github.com/ethereum/go-ethereum/common"
+	"github.com/ethereum/go-ethereum/crypto"
+	"github.com/gogo/protobuf/proto"
+	abci "github.com/tendermint/tendermint/abci/types"
+
+	"github.com/teleport-network/teleport/syscontracts"
+	endpointcontract "github.com/teleport-network/teleport/syscontracts/xibc_endpoint"
+	packetcontract "github.com/teleport-network/teleport/syscontracts/xibc_packet"
+	aggregatetypes "github.com/teleport-network/teleport/x/aggregate/types"
+	clienttypes "github.com/teleport-network/teleport/x/xibc/core/client/types"
+	packettypes "github.com/teleport-network/teleport/x/xibc/core/packet/types"
+
+	"verifharness/hlib"
+)
+
+type CObs struct {
+	Contract int    `json:"contract"` // 0 packet, 1 endpoint, 2 execute
+	Method   string `json:"method"`
+	Sig      string `json:"sig"`
+	Mut      string `json:"mut"`
+	Variant  int    `json:"variant"` // 0 = crafted valid-looking arguments, >0 = sampled from the ABI types
+	Caller   int    `json:"caller"`
+	Effect   bool   `json:"effect"` // the call of the method itself succeeded
+	Same     bool   `json:"same"`   // contract state identical to the reference
+	Note     string `json:"note,omitempty"`
+	Args     string `json:"args,omitempty"` // hex of the call data (replay)
+}
+
+// runtime code of the forwarding proxy: calldata = target (32-byte word) ++ payload; CALLs target with
+// payload and all gas, returns the 32-byte success flag (never reverts).
+//   PUSH1 20 CALLDATASIZE SUB | DUP1 PUSH1 20 PUSH1 0 CALLDATACOPY | PUSH1 0 PUSH1 0 DUP3 PUSH1 0 PUSH1 0
+//   PUSH1 0 CALLDATALOAD GAS CALL | PUSH1 0 MSTORE | PUSH1 20 PUSH1 0 RETURN
+var proxyRuntime = hlib.UnHex("602036038060206000376000600082600060006000355af160005260206000f3")
+
+// init code: CODECOPY the 32 runtime bytes (at offset 12) to memory and RETURN them
+var proxyInit = append(hlib.UnHex("6020600c60003960206000f3"), proxyRuntime...)
+
+type cstate map[string]string
+
+func (w *World) contractState(ctx sdk.Context) cstate {
+	st := cstate{}
+	for _, c := range sysContracts {
+		w.A.App.EvmKeeper.ForEachStorage(ctx, c, func(k, v common.Hash) bool {
+			st[c.Hex()+"/"+k.Hex()] = v.Hex()
+			return true
+		})
+		st[c.Hex()+"/balance"] = w.A.App.BankKeeper.GetAllBalances(ctx, sdk.AccAddress(c.Bytes())).String()
+		st[c.Hex()+"/code"] = hlib.Hex(w.A.App.EvmKeeper.GetAccountOrEmpty(ctx, c).CodeHash)
+	}
+	// fee payouts and token movements show up in account balances
+	for i, a := range w.accts {
+		st[fmt.Sprintf("acct%d", i)] = w.A.App.BankKeeper.GetAllBalances(ctx, a.addr).String()
+	}
+	return st
+}
+
+func diffKeys(a, b cstate) map[string]bool {
+	d := map[string]bool{}
+	for k, v := range a {
+		if b[k] != v {
+			d[k] = true
+		}
+	}
+	for k, v := range b {
+		if a[k] != v {
+			d[k] = true
+		}
+	}
+	return d
+}
+
+// sample a value of an ABI type
+func sampleArg(t abi.Type, r *hlib.Rand, w *World) reflect.Value {
+	strs := []string{"tss-one", w.A.ChainID, "other-chain", "", strings.ToLower(w.accts[0].eth.Hex())}
+	switch t.T {
+	case abi.StringTy:
+		return reflect.ValueOf(strs[r.Intn(len(strs))])
+	case abi.BytesTy:
+		return reflect.ValueOf(r.Bytes(r.Intn(40)))
+	case abi.BoolTy:
+		return reflect.ValueOf(r.Bool())
+	case abi.AddressTy:
+		c := []common.Address{{}, w.accts[1].eth, packetcontract.PacketContractAddress, common.HexToAddress(syscontracts.WTELEContractAddress)}
+		return reflect.ValueOf(c[r.Intn(len(c))])
+	case abi.UintTy, abi.IntTy:
+		n := int64(r.Intn(5))
+		v := reflect.New(t.GetType()).Elem()
+		if v.Kind() == reflect.Ptr {
+			return reflect.ValueOf(big.NewInt(n))
+		}
+		v.SetUint(uint64(n))
+		return v
+	case abi.TupleTy:
+		v := reflect.New(t.GetType()).Elem()
+		for i, el := range t.TupleElems {
+			v.Field(i).Set(sampleArg(*el, r, w))
+		}
+		return v
+	case abi.SliceTy:
+		return reflect.MakeSlice(t.GetType(), 0, 0)
+	}
+	panic("unsupported ABI type " + t.String())
+}
+
+func runContracts(seed uint64, o *hlib.Out) {
+	r := hlib.NewRand(seed ^ 0xC06B)
+	w := NewWorld(seed, []TSSSpec{{Name: "tss-one", Acct: 0}})
+	A := w.A
+	tss := w.accts[0]
+	eoa := w.accts[1]
+	// the TSS account is also the registered relayer of tss-one (so that receives carrying call data are authorized)
+	A.App.XIBCKeeper.ClientKeeper.RegisterRelayers(A.GetContext(), tss.addr.String(), []string{"tss-one"}, []string{"0xrelayer"})
+	// a packet really sent (with a fee) so that acknowledgement-side methods have something to work on
+	sent, err := w.sendReal(A, "tss-one", 100, 7, 0)
+	must(err)
+	// tokens: T1 bound with a supply limit, T2 bound, T3 unbound
+	T1, T2, T3 := common.HexToAddress("0x1111111111111111111111111111111111111101"), common.HexToAddress("0x1111111111111111111111111111111111111102"), common.HexToAddress("0x1111111111111111111111111111111111111103")
+	setup := []string{}
+	if _, err := A.App.AggregateKeeper.AddERC20TraceToTransferContract(A.GetContext(), T1, "0xori1", "tss-one", 0); err != nil {
+		setup = append(setup, "bind T1: "+err.Error())
+	}
+	if _, err := A.App.AggregateKeeper.AddERC20TraceToTransferContract(A.GetContext(), T2, "0xori2", "tss-one", 0); err != nil {
+		setup = append(setup, "bind T2: "+err.Error())
+	}
+	if _, err := A.App.AggregateKeeper.EnableTimeBasedSupplyLimitInTransferContract(A.GetContext(), T1, big.NewInt(100), big.NewInt(1000), big.NewInt(500), big.NewInt(1)); err != nil {
+		setup = append(setup, "limit T1: "+err.Error())
+	}
+	// deploy the forwarding proxy from the EOA (real CREATE transaction)
+	nonce := A.App.EvmKeeper.GetNonce(A.GetContext(), eoa.eth)
+	proxy := crypto.CreateAddress(eoa.eth, nonce)
+	rsp, err := w.ethTx(A, A.GetContext(), eoa, nil, big.NewInt(0), proxyInit)
+	must(err)
+	if rsp.VmError != "" {
+		panic("proxy deployment failed: " + rsp.VmError)
+	}
+
+	type target struct {
+		id   int
+		addr common.Address
+		abi  abi.ABI
+	}
+	targets := []target{
+		{0, packetcontract.PacketContractAddress, packetcontract.PacketContract.ABI},
+		{1, endpointcontract.EndpointContractAddress, endpointcontract.EndpointContract.ABI},
+		{2, endpointcontract.ExecuteContractAddress, endpointcontract.ExecuteContract.ABI},
+	}
+	viewCall, err := packetcontract.PacketContract.ABI.Pack("chainName")
+	must(err)
+	inPacket := func(seq uint64, callData []byte) packettypes.Packet {
+		return *packettypes.NewPacket("tss-one", A.ChainID, seq, "0xsender", nil, callData, "", 0)
+	}
+	harmless, err := (&packettypes.CallData{ContractAddress: strings.ToLower(packetcontract.PacketContractAddress.Hex()), CallData: viewCall}).ABIPack()
+	must(err)
+	okAck := packettypes.Ack{Code: 0, Result: []byte{}, Message: "", Relayer: "0xrelayer", FeeOption: 0}
+	nextSeq := A.App.XIBCKeeper.PacketKeeper.GetNextSequenceSend(A.GetContext(), A.ChainID, "tss-one")
+	crafted := map[string][]interface{}{
+		"0/setSequence":                 {"tss-one", nextSeq + 1},
+		"0/setAckStatus":                {"tss-one", sent.Sequence, uint8(1)},
+		"0/setChainName":                {"renamed-chain"},
+		"0/sendPacketFeeToRelayer":      {"tss-one", sent.Sequence, w.accts[2].eth},
+		"0/onRecvPacket":                {inPacket(900, harmless)},
+		"0/OnAcknowledgePacket":         {sent, okAck},
+		"0/sendPacket":                  {*packettypes.NewPacket(A.ChainID, "tss-one", nextSeq, "0xsender", []byte("t"), nil, "", 0), packettypes.Fee{Amount: big.NewInt(0)}},
+		"0/addPacketFee":                {"tss-one", sent.Sequence, big.NewInt(0)},
+		"1/bindToken":                   {T3, "0xori3", "tss-one", uint8(0)},
+		"1/enableTimeBasedSupplyLimit":  {T2, big.NewInt(100), big.NewInt(1000), big.NewInt(500), big.NewInt(1)},
+		"1/disableTimeBasedSupplyLimit": {T1},
+		"1/onRecvPacket":                {inPacket(901, harmless)},
+		"1/onAcknowledgementPacket":     {sent, uint64(0), []byte{}, ""},
+		"1/crossChainCall": {packettypes.CrossChainData{DstChain: "tss-one", Receiver: "0xreceiver", Amount: big.NewInt(0),
+			ContractAddress: "0x0000000000000000000000000000000000000001", CallData: []byte{1}}, packettypes.Fee{Amount: big.NewInt(0)}},
+		"2/execute": {packettypes.CallData{ContractAddress: strings.ToLower(packetcontract.PacketContractAddress.Hex()), CallData: viewCall}},
+	}
+
+	pseq := uint64(1000)
+	// one attempt: returns (effect, same, note)
+	attempt := func(tg target, caller int, payload []byte) (bool, bool, string) {
+		cctx, _ := A.GetContext().CacheContext()
+		pre := w.contractState(cctx)
+		effect, note := false, ""
+		switch caller {
+		case 0:
+			rsp, err := w.ethTx(A, cctx, eoa, &tg.addr, big.NewInt(0), payload)
+			effect = err == nil && rsp.VmError == ""
+			if err != nil {
+				note = short(err.Error())
+			} else {
+				note = rsp.VmError
+			}
+		case 1:
+			data := append(common.LeftPadBytes(tg.addr.Bytes(), 32), payload...)
+			rsp, err := w.ethTx(A, cctx, eoa, &proxy, big.NewInt(0), data)
+			if err != nil || rsp.VmError != "" || len(rsp.Ret) != 32 {
+				note = "outer tx failed"
+			} else {
+				effect = new(big.Int).SetBytes(rsp.Ret).Sign() != 0
+			}
+		case 2:
+			data, err := endpointcontract.ExecuteContract.ABI.Pack("execute", packettypes.CallData{ContractAddress: strings.ToLower(tg.addr.Hex()), CallData: payload})
+			must(err)
+			rsp, err := w.ethTx(A, cctx, eoa, &endpointcontract.ExecuteContractAddress, big.NewInt(0), data)
+			if err != nil || rsp.VmError != "" {
+				note = "outer tx failed"
+			} else {
+				vals, err := endpointcontract.ExecuteContract.ABI.Unpack("execute", rsp.Ret)
+				must(err)
+				effect = vals[0].(bool)
+			}
+		case 3:
+			run := func(ctx sdk.Context, pl []byte) (bool, cstate, string) {
+				pseq++
+				cd, err := (&packettypes.CallData{ContractAddress: strings.ToLower(tg.addr.Hex()), CallData: pl}).ABIPack()
+				must(err)
+				p := inPacket(pseq, cd)
+				bz, err := p.ABIPack()
+				must(err)
+				msg := packettypes.NewMsgRecvPacket(bz, []byte{1}, clienttypes.NewHeight(0, 1), tss.addr)
+				ctx = ctx.WithEventManager(sdk.NewEventManager())
+				if _, err := A.App.XIBCKeeper.RecvPacket(sdk.WrapSDKContext(ctx), msg); err != nil {
+					return false, w.contractState(ctx), "recv rejected: " + short(err.Error())
+				}
+				code := uint64(99)
+				for _, ev := range ctx.EventManager().Events() {
+					if ev.Type != proto.MessageName(&packettypes.EventWriteAck{}) {
+						continue
+					}
+					pm, err := sdk.ParseTypedEvent(abci.Event(ev))
+					must(err)
+					if a := decodeAck(pm.(*packettypes.EventWriteAck).Ack); a != nil {
+						code = a.Code
+					}
+				}
+				return code == 0, w.contractState(ctx), fmt.Sprintf("ack code %d", code)
+			}
+			// control: same target, a selector no method has
+			c2, _ := A.GetContext().CacheContext()
+			pseq0 := pseq
+			_, ctrl, _ := run(c2, []byte{0xde, 0xad, 0xbe, 0xef})
+			pseq = pseq0 // the test packet gets the same sequence number as the control
+			var post cstate
+			effect, post, note = run(cctx, payload)
+			volatile := diffKeys(pre, ctrl)
+			same := true
+			for k := range diffKeys(ctrl, post) {
+				if !volatile[k] {
+					same = false
+				}
+			}
+			return effect, same, note
+		case 4, 5, 6, 7:
+			from := map[int]common.Address{4: packettypes.ModuleAddress, 5: aggregatetypes.ModuleAddress,
+				6: packetcontract.PacketContractAddress, 7: endpointcontract.EndpointContractAddress}[caller]
+			var err error
+			if caller == 5 {
+				_, err = A.App.AggregateKeeper.CallEVMWithData(cctx, from, &tg.addr, payload)
+			} else {
+				_, err = A.App.XIBCKeeper.PacketKeeper.CallEVMWithData(cctx, from, &tg.addr, payload)
+			}
+			effect = err == nil
+			if err != nil {
+				note = short(err.Error())
+			}
+		}
+		post := w.contractState(cctx)
+		return effect, len(diffKeys(pre, post)) == 0, note
+	}
+
+	for _, s := range setup {
+		o.Emit(CObs{Contract: -1, Method: "setup", Note: s})
+	}
+	for _, tg := range targets {
+		var names []string
+		for n := range tg.abi.Methods {
+			names = append(names, n)
+		}
+		sort.Strings(names)
+		for _, n := range names {
+			m := tg.abi.Methods[n]
+			if m.IsConstant() {
+				continue
+			}
+			for variant := 0; variant < 3; variant++ {
+				var payload []byte
+				key := fmt.Sprintf("%d/%s", tg.id, n)
+				if args, ok := crafted[key]; ok && variant == 0 {
+					payload, err = tg.abi.Pack(n, args...)
+					must(err)
+				} else {
+					var args []interface{}
+					for _, in := range m.Inputs {
+						args = append(args, sampleArg(in.Type, r, w).Interface())
+					}
+					payload, err = tg.abi.Pack(n, args...)
+					must(err)
+				}
+				for caller := 0; caller < 8; caller++ {
+					eff, same, note := attempt(tg, caller, payload)
+					o.Emit(CObs{Contract: tg.id, Method: n, Sig: m.Sig, Mut: m.StateMutability, Variant: variant, Caller: caller,
+						Effect: eff, Same: same, Note: note, Args: hlib.Hex(payload)})
+				}
+				if key == "1/onRecvPacket" && variant == 0 {
+					// same packet argument, through the packet contract on behalf of the module
+					pl, err := packetcontract.PacketContract.ABI.Pack("onRecvPacket", crafted[key]...)
+					must(err)
+					cctx, _ := A.GetContext().CacheContext()
+					pre := w.contractState(cctx)
+					res, err := A.App.XIBCKeeper.PacketKeeper.CallEVMWithData(cctx, packettypes.ModuleAddress, &packetcontract.PacketContractAddress, pl)
+					eff, note := false, ""
+					if err == nil {
+						var result packettypes.Result
+						must(packetcontract.PacketContract.ABI.UnpackIntoInterface(&result, "onRecvPacket", res.Ret))
+						eff = result.Code == 0
+						note = fmt.Sprintf("result code %d %s", result.Code, result.Message)
+					} else {
+						note = short(err.Error())
+					}
+					o.Emit(CObs{Contract: tg.id, Method: n, Sig: m.Sig, Mut: m.StateMutability, Variant: variant, Caller: 8,
+						Effect: eff, Same: len(diffKeys(pre, w.contractState(cctx))) == 0, Note: note, Args: hlib.Hex(payload)})
+				}
+			}
+		}
+	}
+	// positive controls: a harmless view through every indirect path must succeed
+	for caller := 0; caller < 4; caller++ {
+		eff, same, note := attempt(targets[0], caller, viewCall)
+		o.Emit(CObs{Contract: 0, Method: "chainName", Sig: "chainName()", Mut: "view", Caller: caller, Effect: eff, Same: same, Note: note,
+			Args: hlib.Hex(viewCall)})
+	}
+}
